@@ -33,6 +33,7 @@
 #include <cmr/graph.h>
 #include <cmr/element.h>
 #include "env_internal.h"
+#include "seymour_internal.h"
 
 /* ---------- tokens of the current case line ---------- */
 static long long* tok = NULL;
@@ -1143,6 +1144,244 @@ static void do_kdecomp(CMR* cmr)
   CMRchrmatFree(cmr, &M);
 }
 
+/* ---------- C03 / C04: decomposition trees ---------- */
+
+static void o_gcert(CMR_GRAPH* g, CMR_GRAPH_EDGE* forest, size_t nf, CMR_GRAPH_EDGE* coforest, size_t nc, bool* reversed)
+{
+  if (!g || !forest || !coforest)
+  {
+    oi(0);
+    return;
+  }
+  oi(1);
+  o_graph(g);
+  osz(nf);
+  for (size_t i = 0; i < nf; ++i)
+    oi(forest[i]);
+  osz(nc);
+  for (size_t i = 0; i < nc; ++i)
+    oi(coforest[i]);
+  size_t nrev = 0;
+  if (reversed)
+    for (CMR_GRAPH_ITER i = CMRgraphEdgesFirst(g); CMRgraphEdgesValid(g, i); i = CMRgraphEdgesNext(g, i))
+      if (reversed[CMRgraphEdgesEdge(g, i)])
+        ++nrev;
+  osz(nrev);
+  if (reversed)
+    for (CMR_GRAPH_ITER i = CMRgraphEdgesFirst(g); CMRgraphEdgesValid(g, i); i = CMRgraphEdgesNext(g, i))
+      if (reversed[CMRgraphEdgesEdge(g, i)])
+        oi(CMRgraphEdgesEdge(g, i));
+}
+
+static size_t num_special(CMR_SEYMOUR_NODE_TYPE type, size_t child, bool rows)
+{
+  switch (type)
+  {
+  case CMR_SEYMOUR_NODE_TYPE_DELTASUM:
+    return rows ? 1 : 2;
+  case CMR_SEYMOUR_NODE_TYPE_YSUM:
+    return rows ? 2 : 1;
+  case CMR_SEYMOUR_NODE_TYPE_THREESUM:
+    return child == 0 ? (rows ? 2 : 3) : (rows ? 3 : 2);
+  default:
+    return 0;
+  }
+}
+
+static void o_tree(CMR_SEYMOUR_NODE* node)
+{
+  oi(node->type);
+  oi(node->isTernary ? 1 : 0);
+  oi(node->regularity);
+  oi(node->graphicness);
+  oi(node->cographicness);
+  o_chr_dense(node->matrix);
+  osz(node->numChildren);
+  for (size_t c = 0; c < node->numChildren; ++c)
+  {
+    CMR_SEYMOUR_NODE* child = node->children[c];
+    size_t cr = child ? child->numRows : 0, cc = child ? child->numColumns : 0;
+    if (node->childRowsToParent && node->childRowsToParent[c])
+    {
+      osz(cr);
+      for (size_t i = 0; i < cr; ++i)
+        oi(node->childRowsToParent[c][i]);
+    }
+    else
+      oi(0);
+    if (node->childColumnsToParent && node->childColumnsToParent[c])
+    {
+      osz(cc);
+      for (size_t i = 0; i < cc; ++i)
+        oi(node->childColumnsToParent[c][i]);
+    }
+    else
+      oi(0);
+    size_t nsr = (node->childSpecialRows && node->childSpecialRows[c]) ? num_special(node->type, c, true) : 0;
+    osz(nsr);
+    for (size_t i = 0; i < nsr; ++i)
+      osz(node->childSpecialRows[c][i]);
+    size_t nsc = (node->childSpecialColumns && node->childSpecialColumns[c]) ? num_special(node->type, c, false) : 0;
+    osz(nsc);
+    for (size_t i = 0; i < nsc; ++i)
+      osz(node->childSpecialColumns[c][i]);
+  }
+  size_t np = node->type == CMR_SEYMOUR_NODE_TYPE_PIVOTS ? node->numPivots : 0;
+  osz(np);
+  for (size_t i = 0; i < np; ++i)
+    osz(node->pivotRows[i]);
+  osz(np);
+  for (size_t i = 0; i < np; ++i)
+    osz(node->pivotColumns[i]);
+  size_t nred = node->type == CMR_SEYMOUR_NODE_TYPE_SERIES_PARALLEL ? node->numSeriesParallelReductions : 0;
+  osz(nred);
+  for (size_t i = 0; i < nred; ++i)
+  {
+    oi(node->seriesParallelReductions[i].element);
+    oi(node->seriesParallelReductions[i].mate);
+  }
+  o_gcert(node->graph, node->graphForest, node->matrix->numRows, node->graphCoforest, node->matrix->numColumns,
+    node->graphArcsReversed);
+  o_gcert(node->cograph, node->cographForest, node->matrix->numColumns, node->cographCoforest, node->matrix->numRows,
+    node->cographArcsReversed);
+  osz(node->numMinors);
+  for (size_t i = 0; i < node->numMinors; ++i)
+  {
+    CMR_MINOR* mn = node->minors[i];
+    oi(mn->type);
+    osz(mn->numPivots);
+    for (size_t k = 0; k < mn->numPivots; ++k)
+      osz(mn->pivotRows[k]);
+    osz(mn->numPivots);
+    for (size_t k = 0; k < mn->numPivots; ++k)
+      osz(mn->pivotColumns[k]);
+    o_opt_submat(mn->remainingSubmatrix);
+  }
+  for (size_t c = 0; c < node->numChildren; ++c)
+    o_tree(node->children[c]);
+}
+
+/* case: cfg entry(0 = CMRtuTest, 1 = CMRregularTest) M [script: nsteps (op path_len path.. )...]
+ * record: ncfg cfg binaryOfTernary M rc hasTree [tree]   (the tree after all script steps)
+ * script ops: 1 / 2 = complete / refine the k-th unknown leaf (k = first path entry), 3 / 4 = complete / refine the
+ * (possibly already decomposed) node at the child-index path. */
+static CMR_SEYMOUR_NODE* node_at(CMR_SEYMOUR_NODE* root, size_t len, long long* path)
+{
+  CMR_SEYMOUR_NODE* cur = root;
+  for (size_t i = 0; i < len && cur; ++i)
+  {
+    if (cur->numChildren == 0)
+      break;
+    cur = cur->children[(size_t) path[i] % cur->numChildren];
+  }
+  return cur;
+}
+
+static void count_unknown(CMR_SEYMOUR_NODE* node, size_t* pcount)
+{
+  if (node->type == CMR_SEYMOUR_NODE_TYPE_UNKNOWN && node->numChildren == 0)
+    ++(*pcount);
+  for (size_t c = 0; c < node->numChildren; ++c)
+    count_unknown(node->children[c], pcount);
+}
+
+static CMR_SEYMOUR_NODE* kth_unknown(CMR_SEYMOUR_NODE* node, size_t* pk)
+{
+  if (node->type == CMR_SEYMOUR_NODE_TYPE_UNKNOWN && node->numChildren == 0)
+  {
+    if (*pk == 0)
+      return node;
+    --(*pk);
+  }
+  for (size_t c = 0; c < node->numChildren; ++c)
+  {
+    CMR_SEYMOUR_NODE* r = kth_unknown(node->children[c], pk);
+    if (r)
+      return r;
+  }
+  return NULL;
+}
+
+static void do_tree(CMR* cmr)
+{
+  read_cfg();
+  long long entry = nx();
+  CMR_CHRMAT* M = read_chrmat(cmr);
+  CMR_SEYMOUR_NODE* root = NULL;
+  CMR_ERROR rc;
+  unsigned char flag = 2;
+  CMR_TU_PARAMS tup;
+  tu_params_from_cfg(&tup);
+  tup.algorithm = CMR_TU_ALGORITHM_DECOMPOSITION;
+  CMR_REGULAR_PARAMS rp;
+  CMRregularParamsInit(&rp);
+  seymour_params_from_cfg(&rp.seymour);
+  if (entry == 0)
+    rc = CMRtuTest(cmr, M, (bool*) &flag, &root, NULL, &tup, NULL, DBL_MAX);
+  else
+    rc = CMRregularTest(cmr, M, (bool*) &flag, &root, NULL, &rp, NULL, DBL_MAX);
+  size_t nsteps = more() ? (size_t) nx() : 0;
+  for (size_t step = 0; step <= nsteps; ++step)
+  {
+    if (step > 0)
+    {
+      long long op = nx();
+      size_t len = nx();
+      long long path[64];
+      for (size_t i = 0; i < len; ++i)
+      {
+        long long v = nx();
+        if (i < 64)
+          path[i] = v;
+      }
+      if (rc || !root)
+        continue;
+      CMR_SEYMOUR_NODE* target = NULL;
+      if (op == 1 || op == 2)
+      {
+        /* the k-th unknown leaf in pre-order (k = first path entry modulo their number) */
+        size_t count = 0;
+        count_unknown(root, &count);
+        if (count == 0)
+          continue;
+        size_t k = (len ? (size_t) path[0] : 0) % count;
+        target = kth_unknown(root, &k);
+        if (!target)
+          continue;
+      }
+      else
+      {
+        target = node_at(root, len < 64 ? len : 64, path);
+        op -= 2;
+      }
+      /* later steps run with default stop flags so that the tree gets completed */
+      tup.seymour.stopWhenIrregular = tup.seymour.stopWhenNongraphic = tup.seymour.stopWhenNoncographic = false;
+      tup.seymour.stopWhenNeitherGraphicNorCoGraphic = false;
+      rp.seymour = tup.seymour;
+      if (op == 1)
+        rc = (entry == 0 && CMRseymourIsTernary(root)) ? CMRtuCompleteDecomposition(cmr, target, &tup, NULL, DBL_MAX)
+          : CMRregularCompleteDecomposition(cmr, target, &rp, NULL, DBL_MAX);
+      else
+      {
+        CMR_SEYMOUR_NODE* nodes[1] = { target };
+        rc = CMRregularRefineDecomposition(cmr, 1, nodes, &rp, NULL, DBL_MAX);
+      }
+    }
+  }
+  rec_begin();
+  o_cfg();
+  oi((entry == 0 && root && !CMRseymourIsTernary(root)) ? 1 : 0);
+  o_chr_dense(M);
+  oi(rc);
+  oi((!rc && root) ? 1 : 0);
+  if (!rc && root)
+    o_tree(root);
+  rec_end();
+  if (root)
+    CMRseymourRelease(cmr, &root);
+  CMRchrmatFree(cmr, &M);
+}
+
 /* ---------- dispatch ---------- */
 
 typedef void (*handler)(CMR*);
@@ -1165,6 +1404,7 @@ static struct
   {"camion", do_camion},
   {"kcompose", do_kcompose},
   {"kdecomp", do_kdecomp},
+  {"tree", do_tree},
   {NULL, NULL}
 };
 
